@@ -35,7 +35,12 @@ LEVEL_TEXT = ("Unbounded proof: for every condition tree (any depth, any mix of 
               "with unused block ids from some m on and an entry nothing points at, whatever the driver merges in however "
               "many passes, a walk from the entry of the result ends at an exit exactly when a walk from the original entry "
               "does - the invariants (edges, unused ids, entry without predecessors) are shown to be kept from one merge "
-              "to the next; chain graphs meet the edge hypothesis for every chain (chain_edges_ok).")
+              "to the next; chain graphs meet the edge hypothesis for every chain (chain_edges_ok). Outside the model (its "
+              "leaf is an abstract comparison): the same chains over every kind of comparison a block can hold (zero tests "
+              "with all six operators, boolean and null tests, two-register tests, cmp-long / cmpl / cmpg results tested "
+              "against zero), evaluated with operand values under Java's precedence; and compound conditions (random "
+              "mixes of &&, || and !) compiled to branch chains as if statements and do-while exits, taken through the "
+              "whole decompiler, javac and a JVM and compared with the bytecode's own result.")
 LEVEL_NOTE = ("Trusted: Coq kernel; coq/Dad/ShortCircuitModel.v, ShortCircuitGraph.v, ShortCircuitDriver.v as a rendering of "
               "Condition/ShortCircuitBlock.neg, of the meaning of a printed condition (Java's !, &&, ||, with the parentheses "
               "the writer emits), of short_circuit_struct / MergeNodes / Graph.preds / Graph.post_order and of "
@@ -344,3 +349,312 @@ def coq_chain(case):
 STREAMS = [{"name": "chains", "gen": gen, "impl": impl, "canon": canon, "coq_header": COQ_HEADER, "coq_type": "Z * list ((Z * Z) * bool)",
             "coq_input": coq_chain, "coq_obs": "obs_struct",
             "model_vo": "Dad/ShortCircuitDriver.vo", "pinned": False, "oracle": oracle, "stats": stats, "shard": 60}]
+
+
+# ---- stream 2: the same chains over every kind of comparison a conditional block can hold (no model: the model's leaf is abstract) ----
+OPS = ["==", "!=", "<", ">=", ">", "<="]
+CMP = {"==": lambda a, b: a == b, "!=": lambda a, b: a != b, "<": lambda a, b: a < b, ">=": lambda a, b: a >= b,
+       ">": lambda a, b: a > b, "<=": lambda a, b: a <= b}
+
+
+def rand_kind(rng):
+    k = rng.choice(("z", "z", "bool", "obj", "two", "cmp", "cmp", "cmp"))
+    if k in ("bool", "obj"):
+        return [k, rng.choice(OPS[:2])]
+    if k == "cmp":
+        return [k, rng.choice(OPS), rng.choice((("cmp", "J"), ("cmpl", "F"), ("cmpg", "F"), ("cmpl", "D"), ("cmpg", "D")))]
+    return [k, rng.choice(OPS)]
+
+
+def gen_kinds(rng, tier, ctx):
+    two, three = list(all_specs(2)), list(all_specs(3))
+    cases = []
+    for s in two:
+        for _ in range(3 if tier == "thorough" else 1):
+            cases.append((2, s, [rand_kind(rng) for _ in range(2)]))
+    for s in (three if tier == "thorough" else rng.sample(three, 150)):
+        cases.append((3, s, [rand_kind(rng) for _ in range(3)]))
+    for kind in (["cmp", "<", ("cmpl", "F")], ["cmp", ">=", ("cmpg", "D")], ["cmp", "!=", ("cmp", "J")], ["bool", "=="], ["obj", "!="], ["two", "<="]):
+        for s in two[::2]:
+            cases.append((2, s, [kind, kind]))          # every merge case with the same kind on both sides
+    return cases
+
+
+def leaf_values(kind):
+    """the operand values a leaf is tried with, and its outcome under each"""
+    k, op = kind[0], kind[1]
+    if k == "z":
+        return [({"c": v}, CMP[op](v, 0)) for v in (-1, 0, 1)]
+    if k == "bool":
+        return [({"c": v}, CMP[op](int(v), 0)) for v in (False, True)]
+    if k == "obj":
+        return [({"c": v}, (v is None) == (op == "==")) for v in (None, "an object")]
+    return [({"a": a, "b": b}, CMP[op](a, b)) for a, b in ((0, 1), (1, 0), (0, 0))]
+
+
+def java_cond(text, values):
+    """the value of a printed condition under Java's precedence: || < && < ==,!= < relational < !"""
+    toks = re.findall(r"\|\||&&|==|!=|<=|>=|[!()<>]|-?\d+|\w+", text)
+    if "".join(toks) != re.sub(r"\s+", "", text):
+        raise ValueError("unexpected characters in the condition %r" % text)
+    pos = [0]
+
+    def peek():
+        return toks[pos[0]] if pos[0] < len(toks) else None
+
+    def take():
+        pos[0] += 1
+        return toks[pos[0] - 1]
+
+    def unary():
+        t = take()
+        if t == "!":
+            v = unary()
+            if not isinstance(v, bool):
+                raise ValueError("! applied to a non-boolean in %r" % text)
+            return not v
+        if t == "(":
+            v = disj()
+            if take() != ")":
+                raise ValueError("unbalanced parentheses in %r" % text)
+            return v
+        if t == "null":
+            return None
+        if re.fullmatch(r"-?\d+", t):
+            return int(t)
+        return values[t]
+
+    def rel():
+        v = unary()
+        if peek() in ("<", "<=", ">", ">="):
+            op = take()
+            v = CMP[op](v, unary())
+        return v
+
+    def eq():
+        v = rel()
+        while peek() in ("==", "!="):
+            op = take()
+            w = rel()
+            v = (v is w or (type(v) is type(w) and v == w)) == (op == "==")
+        return v
+
+    def conj():
+        v = eq()
+        while peek() == "&&":
+            take()
+            w = eq()
+            v = v and w
+        return v
+
+    def disj():
+        v = conj()
+        while peek() == "||":
+            take()
+            w = conj()
+            v = v or w
+        return v
+    v = disj()
+    if pos[0] != len(toks) or not isinstance(v, bool):
+        raise ValueError("not a boolean condition: %r" % text)
+    return v
+
+
+def build_kinds(spec, kinds):
+    from androguard.decompiler.basic_blocks import CondBlock, ReturnBlock
+    from androguard.decompiler.control_flow import short_circuit_struct
+    from androguard.decompiler.graph import Graph
+    from androguard.decompiler.instruction import (BinaryCompExpression, ConditionalExpression, ConditionalZExpression, Constant, Param,
+                                                   ReturnInstruction, Variable)
+    g = Graph()
+
+    def leaf(i, kind):
+        k, op = kind[0], kind[1]
+        if k == "z":
+            return ConditionalZExpression(op, Param("c%d" % i, "I"))
+        if k == "bool":
+            return ConditionalZExpression(op, Param("c%d" % i, "Z"))
+        if k == "obj":
+            return ConditionalZExpression(op, Param("c%d" % i, "Ljava/lang/Object;"))
+        if k == "two":
+            return ConditionalExpression(op, Param("a%d" % i, "I"), Param("b%d" % i, "I"))
+        z = ConditionalZExpression(op, Variable(100 + i))       # if-<op>z on the register a cmp wrote, then the cmp propagated into it
+        z.replace(100 + i, BinaryCompExpression(kind[2][0], Param("a%d" % i, kind[2][1]), Param("b%d" % i, kind[2][1]), kind[2][1]))
+        return z
+    conds = [CondBlock("c%d" % i, [leaf(i, kinds[i])]) for i in range(len(spec))]
+    exits = {"X%d" % k: ReturnBlock("X%d" % k, [ReturnInstruction(Constant(k, "I"))]) for k in range(NEXITS)}
+    node = lambda t: conds[t] if isinstance(t, int) else exits[t]
+    for x in conds + list(exits.values()):
+        g.add_node(x)
+    for i, (t, f) in enumerate(spec):
+        conds[i].true, conds[i].false = node(t), node(f)
+        g.add_edge(conds[i], node(t))
+        g.add_edge(conds[i], node(f))
+    g.entry = conds[0]
+    g.compute_rpo()
+    short_circuit_struct(g, g.immediate_dominators(), {})
+    return g
+
+
+def impl_kinds(case):
+    from androguard.decompiler.writer import Writer
+    n, spec, kinds = case
+    per_leaf = [leaf_values(k) for k in kinds]
+    combos = list(itertools.product(*per_leaf))
+    out = {}
+    for negate in (False, True):
+        g = build_kinds(spec, kinds)
+        table = {}
+        for x in list(g.nodes):
+            if x.type.is_cond:
+                if negate:                      # what visit_cond_node does when it decides to print the negation
+                    x.neg()
+                    x.true, x.false = x.false, x.true
+                w = Writer(g, None)
+                x.visit_cond(w)
+                table[x] = (str(w), x.true, x.false)
+        got = []
+        for combo in combos:
+            values = {}
+            for i, (vals, _) in enumerate(combo):
+                for nm, v in vals.items():
+                    values["p%s%d" % (nm, i)] = v
+            cur = g.entry
+            while cur.type.is_cond:
+                text, t, f = table[cur]
+                cur = t if java_cond(text, values) else f
+            got.append(int(cur.name[1:]))
+        out["negated" if negate else "plain"] = got
+        out["texts_negated" if negate else "texts"] = sorted(t for t, _, _ in table.values())
+    out["outcomes"] = [[bool(o) for _, o in combo] for combo in combos]
+    out["values"] = [[vals for vals, _ in combo] for combo in combos]
+    return out
+
+
+def oracle_kinds(case, res):
+    n, spec, kinds = case
+    if isinstance(res, Err):
+        return "merging or printing failed: %s %s" % (res.name, res.msg[:150])
+    want = [original(spec, env) for env in res["outcomes"]]
+    for what, got, texts in (("printed as merged", res["plain"], res["texts"]), ("printed after neg() and swap", res["negated"], res["texts_negated"])):
+        if got != want:
+            k = next(i for i in range(len(want)) if got[i] != want[i])
+            return "chain %s (node -> [true, false]) over the comparisons %s, conditions %s %s: with operands %s (branch outcomes %s) the original chain goes to X%d, the printed conditions go to X%d" % (
+                spec, kinds, what, texts, res["values"][k], res["outcomes"][k], want[k], got[k])
+    return None
+
+
+def stats_kinds(cases, results):
+    d = {"chains": len(cases)}
+    for c in cases:
+        for k in c[2]:
+            key = "leaf_" + k[0] + ("_" + k[2][0] + "_" + k[2][1] if k[0] == "cmp" else "")
+            d[key] = d.get(key, 0) + 1
+    return d
+
+
+STREAMS.append({"name": "comparison-kinds", "gen": gen_kinds, "impl": impl_kinds, "pinned": False, "oracle": oracle_kinds, "stats": stats_kinds,
+                "nontrivial": lambda c, r: not isinstance(r, Err)})
+
+
+# ---- stream 3: compound conditions compiled to branch chains, through the whole decompiler, javac and a JVM (no model) ----------------
+NEGC = {"eq": "ne", "ne": "eq", "lt": "ge", "ge": "lt", "gt": "le", "le": "gt"}
+
+
+def rand_bexpr(rng, depth):
+    if depth == 0 or rng.random() < 0.25:
+        r = rng.random()
+        if r < 0.5:
+            return ("leaf", rng.choice(sorted(NEGC)), rng.choice(("p0", "p1", "p2", "p3")), None)
+        if r < 0.8:
+            a, b = rng.sample(("p0", "p1", "p2", "p3"), 2)
+            return ("leaf", rng.choice(sorted(NEGC)), a, b)
+        return ("lcmp", rng.choice(sorted(NEGC)), rng.choice(("p4", "l0")), "p5")        # cmp-long, then a zero test of its result
+    k = rng.choice(("and", "or", "and", "or", "not"))
+    if k == "not":
+        return ("not", rand_bexpr(rng, depth - 1))
+    return (k, rand_bexpr(rng, depth - 1), rand_bexpr(rng, depth - 1))
+
+
+def compile_bexpr(e, T, F, nxt, flat, fresh):
+    """jump to T when e holds and to F when it does not; the code that follows is the one labelled nxt (T or F)"""
+    k = e[0]
+    if k == "leaf" or k == "lcmp":
+        _, cmp_, a, b = e
+        if k == "lcmp":
+            flat.append(("cmpl", "i3", a, b))
+            a, b = "i3", None
+        flat.append(("br", cmp_, a, b, T) if nxt == F else ("br", NEGC[cmp_], a, b, F))
+    elif k == "not":
+        compile_bexpr(e[1], F, T, nxt, flat, fresh)
+    else:
+        m = fresh()
+        if k == "and":
+            compile_bexpr(e[1], m, F, m, flat, fresh)
+        else:
+            compile_bexpr(e[1], T, m, m, flat, fresh)
+        flat.append(("label", m))
+        compile_bexpr(e[2], T, F, nxt, flat, fresh)
+
+
+def bexpr_method(rng, idx, loop):
+    n = [0]
+
+    def fresh():
+        n[0] += 1
+        return "M%d" % n[0]
+    e = rand_bexpr(rng, rng.choice((2, 2, 3)))
+    flat = [("const", r, 0) for r in ("i0", "i1", "i2", "i3")] + [("const", "l0", rng.choice((0, 5))), ("const", "l1", 0)]
+    if loop:            # do { i0 += p0; c0--; } while (c0 > 0 && e); return i0
+        flat += [("const", "c0", rng.choice((2, 3))), ("label", "T"), ("bin", "add", 3, "i0", "i0", "p0"), ("bin", "add", 8, "c0", "c0", -1),
+                 ("br", "le", "c0", None, "E")]
+        compile_bexpr(e, "T", "E", "E", flat, fresh)
+        flat += [("label", "E"), ("ret", "i0")]
+    else:               # if (e) return 1; else return 2  (either arm first)
+        first = rng.choice(("T", "F"))
+        compile_bexpr(e, "T", "F", first, flat, fresh)
+        for lb in (first, "F" if first == "T" else "T"):
+            flat += [("label", lb), ("const", "i0", 1 if lb == "T" else 2), ("ret", "i0")]
+    return {"name": "m%d" % idx, "ret": "I", "params": ["I", "I", "I", "I", "J", "J"], "flat": flat, "expr": e}
+
+
+def gen_bytecode(rng, tier, ctx):
+    from tools.vlib import javadiff as J
+    cases = []
+    for b in range(12 if tier == "thorough" else 2):
+        methods = [bexpr_method(rng, i, False) for i in range(8)] + [bexpr_method(rng, 8 + i, True) for i in range(6)] + [J.gen_dowhile(rng, 14 + i) for i in range(2)]
+        argsets = []
+        for m in methods:
+            vals = (-1, 0, 1, 5)
+            argsets.append([tuple(rng.choice(vals) for _ in m["params"]) for _ in range(24)])
+        cases.append((methods, argsets))
+    return cases
+
+
+def impl_bytecode(case):
+    from tools.props import c21
+    return c21.impl_structured(case)
+
+
+def oracle_bytecode(case, res):
+    from tools.vlib import javadiff as J
+    if isinstance(res, Err):
+        return "harness failed: %s %s" % (res.name, res.msg[:200])
+    methods, argsets = case
+    for m, tuples, r in zip(methods, argsets, res):
+        if "decompile_error" in r:
+            return "method %s (condition %r): decompiling raised %s" % (m["name"], m.get("expr"), r["decompile_error"])
+        if "error" in r:
+            return "method %s (condition %r): the source is not accepted by javac: %s\n%s" % (m["name"], m.get("expr"), r["error"][:300], r["source"][:900])
+        for t, g in zip(tuples, r["values"]):
+            w = J.interpret(m, t)
+            if g != w:
+                return "method %s (condition %r): for arguments %r the decompiled source returns %r, the bytecode %r\n%s" % (
+                    m["name"], m.get("expr"), t, g, w, r["source"][:900])
+    return None
+
+
+STREAMS.append({"name": "compiled-conditions", "gen": gen_bytecode, "impl": impl_bytecode, "pinned": False, "oracle": oracle_bytecode,
+                "case_timeout": 600,
+                "stats": lambda cases, results: {"methods": sum(len(c[0]) for c in cases), "argument_tuples": sum(len(a) for c in cases for a in c[1]),
+                                                  "merged_conditions_in_source": sum(r.get("source", "").count("&&") + r.get("source", "").count("||") for rs in results if not isinstance(rs, Err) for r in rs)}})
